@@ -16,9 +16,11 @@ import (
 	sdkmath "cosmossdk.io/math"
 	sdk "github.com/cosmos/cosmos-sdk/types"
 	authtypes "github.com/cosmos/cosmos-sdk/x/auth/types"
+	banktypes "github.com/cosmos/cosmos-sdk/x/bank/types"
 	"github.com/ethereum/go-ethereum/common"
 
 	fxtypes "github.com/functionx/fx-core/v8/types"
+	crosschainprecompile "github.com/functionx/fx-core/v8/x/crosschain/precompile"
 	crosschaintypes "github.com/functionx/fx-core/v8/x/crosschain/types"
 	erc20types "github.com/functionx/fx-core/v8/x/erc20/types"
 
@@ -110,6 +112,7 @@ type World struct {
 	toks                                        []tokenInfo
 	keys                                        []acctKey
 	nextEv                                      uint64
+	coinErc20                                   common.Address
 	stuck                                       bool // the event stream can no longer advance (an observed claim panicked)
 	params0                                     [4]uint64
 	h0                                          int64
@@ -129,6 +132,8 @@ var extAddrs = []string{
 }
 
 const moduleAcct = -1
+const erc20Acct = -2
+const coinContract = "0x8888888888888888888888888888888888888888"
 
 func NewWorld(seed int64, prm [4]uint64, moduleFloat int64) *World {
 	c := lib.NewChain(seed, 1, nil)
@@ -144,13 +149,23 @@ func NewWorld(seed int64, prm [4]uint64, moduleFloat int64) *World {
 	lib.Must(k.SetParams(ctx, &p))
 	w.params0 = prm
 
-	// token 0: FX; tokens 1,2: plain bridge tokens as in keeper_v1_test.go AddRandomBaseToken(false); token 3: not registered
+	// token 0: FX; tokens 1,2: plain bridge tokens as in keeper_v1_test.go AddRandomBaseToken(false); token 3: registered coin; token 4: not registered
 	w.toks = []tokenInfo{
 		{Kind: "native", Base: fxtypes.DefaultDenom, Bridge: fxtypes.DefaultDenom, Contract: contracts[0]},
 		{Kind: "ext", Base: "usda", Bridge: crosschaintypes.NewBridgeDenom(chainName, contracts[1]), Contract: contracts[1]},
 		{Kind: "ext", Base: "usdb", Bridge: crosschaintypes.NewBridgeDenom(chainName, contracts[2]), Contract: contracts[2]},
+		{Kind: "coin", Base: "usdc", Bridge: crosschaintypes.NewBridgeDenom(chainName, coinContract), Contract: coinContract},
 		{Kind: "none", Base: "zzz", Bridge: crosschaintypes.NewBridgeDenom(chainName, "0x7777777777777777777777777777777777777777"), Contract: "0x7777777777777777777777777777777777777777"},
 	}
+	// token 3: a coin registered in x/erc20 (module-owned ERC-20, bridge denom as alias), the set-up the repository's
+	// bridge-call refund tests use; the only kind whose precompile-originated refund (ERC-20) works end to end
+	lib.Must(k.AddBridgeTokenExecuted(ctx, &crosschaintypes.MsgBridgeTokenClaim{TokenContract: coinContract, Name: "USD Coin", Symbol: "USDC", Decimals: 18, ChainName: chainName}))
+	_, rerr := c.App.Erc20Keeper.RegisterCoin(ctx, &erc20types.MsgRegisterCoin{Authority: lib.GovAuthority(), Metadata: banktypes.Metadata{
+		Description: "registered coin", DenomUnits: []*banktypes.DenomUnit{{Denom: "usdc", Exponent: 0, Aliases: []string{w.toks[3].Bridge}}, {Denom: "USDC", Exponent: 18}},
+		Base: "usdc", Display: "USDC", Name: "USD Coin", Symbol: "USDC"}})
+	lib.Must(rerr)
+	pair, _ := c.App.Erc20Keeper.GetTokenPair(ctx, "usdc")
+	w.coinErc20 = pair.GetERC20Contract()
 	lib.Must(k.AddBridgeTokenExecuted(ctx, &crosschaintypes.MsgBridgeTokenClaim{TokenContract: contracts[0], Name: "Function X", Symbol: fxtypes.DefaultDenom, Decimals: 18, ChainName: chainName}))
 	erc20Mod := common.BytesToAddress(authtypes.NewModuleAddress(erc20types.ModuleName).Bytes())
 	for i := 1; i <= 2; i++ {
@@ -174,9 +189,12 @@ func NewWorld(seed int64, prm [4]uint64, moduleFloat int64) *World {
 			c.Mint(u.Acc(), sdk.NewCoin(w.toks[t].Base, sdkmath.NewInt(5000)), sdk.NewCoin(w.toks[t].Bridge, sdkmath.NewInt(300)))
 		}
 		c.Mint(u.Acc(), sdk.NewCoin("zzz", sdkmath.NewInt(1000)))
+		c.Mint(u.Acc(), sdk.NewCoin("usdc", sdkmath.NewInt(5000)), sdk.NewCoin(w.toks[3].Bridge, sdkmath.NewInt(300)))
+		_, cerr := c.App.Erc20Keeper.ConvertCoin(ctx, &erc20types.MsgConvertCoin{Coin: sdk.NewCoin("usdc", sdkmath.NewInt(1000)), Receiver: u.Hex().String(), Sender: u.Acc().String()})
+		lib.Must(cerr)
 	}
 	if moduleFloat > 0 {
-		for t := 1; t <= 2; t++ {
+		for t := 1; t <= 3; t++ {
 			lib.Must(c.App.BankKeeper.MintCoins(ctx, chainName, sdk.NewCoins(sdk.NewCoin(w.toks[t].Bridge, sdkmath.NewInt(moduleFloat)))))
 		}
 	}
@@ -184,11 +202,12 @@ func NewWorld(seed int64, prm [4]uint64, moduleFloat int64) *World {
 		w.exts = append(w.exts, e)
 		w.extIdx[e] = i
 	}
-	for a := -1; a < 3; a++ {
+	for a := -2; a < 3; a++ {
 		w.keys = append(w.keys, acctKey{a, 0, 0})
 		for t := 1; t <= 2; t++ {
 			w.keys = append(w.keys, acctKey{a, t, 0}, acctKey{a, t, 1})
 		}
+		w.keys = append(w.keys, acctKey{a, 3, 0}, acctKey{a, 3, 1}, acctKey{a, 3, 2})
 	}
 	w.h0 = c.Ctx.BlockHeight()
 	w.bal0 = w.balances()
@@ -198,6 +217,9 @@ func NewWorld(seed int64, prm [4]uint64, moduleFloat int64) *World {
 func (w *World) acc(a int) sdk.AccAddress {
 	if a == moduleAcct {
 		return authtypes.NewModuleAddress(chainName)
+	}
+	if a == erc20Acct {
+		return authtypes.NewModuleAddress(erc20types.ModuleName)
 	}
 	return w.users[a].Acc()
 }
@@ -212,6 +234,12 @@ func (w *World) denom(t, which int) string {
 func (w *World) balances() []*big.Int {
 	var out []*big.Int
 	for _, k := range w.keys {
+		if k.Which == 2 { // ERC-20 balance of the registered coin
+			b, err := w.c.App.EvmKeeper.ERC20BalanceOf(w.c.Ctx, w.coinErc20, common.BytesToAddress(w.acc(k.Acct)))
+			lib.Must(err)
+			out = append(out, b)
+			continue
+		}
 		out = append(out, w.c.App.BankKeeper.GetBalance(w.c.Ctx, w.acc(k.Acct), w.denom(k.Token, k.Which)).Amount.BigInt())
 	}
 	return out
@@ -340,6 +368,29 @@ func (w *World) apply(op Op) (accepted bool) {
 			}
 			_, err := ms.BridgeCall(ctx, m)
 			return err
+		})
+	case "BridgeCallP":
+		// the REAL bridgeCall precompile: msg.value of FX and/or ERC-20 tokens of the registered coin
+		args := crosschaintypes.BridgeCallArgs{DstChain: chainName, Refund: w.users[op.Refund].Hex(), To: common.HexToAddress(w.exts[op.To]),
+			Data: op.Data, Value: big.NewInt(0), Memo: op.Memo}
+		for _, cn := range op.Coins {
+			args.Tokens = append(args.Tokens, w.coinErc20)
+			args.Amounts = append(args.Amounts, big.NewInt(cn[1]))
+		}
+		return w.tryMsg(func(ctx sdk.Context) error {
+			data, err := crosschainprecompile.NewBridgeCallMethod(nil).PackInput(args)
+			if err != nil {
+				return err
+			}
+			pre := lib.CrosschainPrecompile
+			r := w.c.EvmCall(ctx, w.users[op.Sender].Hex(), &pre, big.NewInt(op.Amount), 5_000_000, data)
+			if r.Err != nil {
+				return r.Err
+			}
+			if r.Failed {
+				return fmt.Errorf("evm: %s", r.VmError)
+			}
+			return nil
 		})
 	case "NextBlock":
 		if err := w.c.NextBlock(); err != nil {
